@@ -47,6 +47,8 @@ type Config struct {
 	Reasons      map[string]string `json:"reasons"`
 	LockAliases  map[string]string `json:"lock_aliases"`         // lock id -> canonical lock id
 	SingleWriter map[string]string `json:"single_writer_fields"` // field -> the only function allowed to write it (see reasons)
+	Extra        []string          `json:"extra_packages"`       // analysed for the atomic-step report only (no facts emitted)
+	AtomicSteps  map[string]string `json:"atomic_steps"`         // function id -> lock id: bodies the models treat as ONE atomic step
 	Anchored     []string          `json:"anchored_files"`
 }
 
@@ -75,6 +77,8 @@ type fnode struct {
 	isEntry   bool
 	roles     map[string]bool
 	exclusive bool
+	escaped   []*Access
+	acquires  []string // lock acquisitions written in this body (in source order)
 	inherit   []string // for non-go literals: local locks held where the literal is written
 }
 
@@ -91,8 +95,10 @@ var (
 	byObj   = map[types.Object]*fnode{}
 	byLit   = map[*ast.FuncLit]*fnode{}
 	targets = map[string]bool{}
+	primary = map[string]bool{}
 	methods []*types.Func // all concrete methods of analysed packages
 
+	atomicReport = map[string]string{}
 	txctxReaders = map[string]bool{} // non-test functions reading the per-flow transactional context
 )
 
@@ -110,6 +116,10 @@ func main() {
 	must(json.Unmarshal(raw, &cfg))
 	for _, p := range cfg.Packages {
 		targets[p] = true
+		primary[shortPkg(p)] = true
+	}
+	for _, p := range cfg.Extra {
+		targets[p] = true
 	}
 	fset = token.NewFileSet()
 	pcfg := &packages.Config{
@@ -119,7 +129,7 @@ func main() {
 		Fset: fset,
 		Env:  append(os.Environ(), "GOFLAGS=-mod=mod", "GOPROXY=off", "GOSUMDB=off", "GOTOOLCHAIN=local"),
 	}
-	pkgs, err := packages.Load(pcfg, cfg.Packages...)
+	pkgs, err := packages.Load(pcfg, append(append([]string{}, cfg.Packages...), cfg.Extra...)...)
 	must(err)
 	nerr := 0
 	for _, p := range pkgs {
@@ -199,8 +209,14 @@ func main() {
 			for _, x := range n.locksAt[a] {
 				l[canon(x)] = true
 			}
+			isEsc := false
+			for _, e := range n.escaped {
+				isEsc = isEsc || e == a
+			}
 			for x := range n.entry {
-				l[canon(x)] = true
+				if !isEsc {
+					l[canon(x)] = true
+				}
 			}
 			b := *a
 			b.Locks = keys(l)
@@ -209,7 +225,87 @@ func main() {
 		}
 	}
 	scanTxctxReaders(filepath.Join(*repo, cfg.ModuleDir))
+	atomicReport = checkAtomicSteps(all)
 	writeOutputs(all, *outV, *outJ, *repo)
+}
+
+// checkAtomicSteps: the Coq models of C01/C02/C09/C12 treat the listed function
+// bodies as ONE atomic step. That is justified iff the body is a single critical
+// section of the named lock: the lock is acquired exactly once in the body (and
+// never in shared mode), every access to a field that is written somewhere under
+// that lock and every call into the analysed packages happens while it is held,
+// and no callee acquires the same lock again (a second critical section: a
+// check-then-act split).
+func checkAtomicSteps(all []Access) map[string]string {
+	guarded := map[string]bool{} // fields written under some exclusive lock
+	lockOf := map[string]map[string]bool{}
+	for _, a := range all {
+		if a.Write {
+			for _, l := range a.Locks {
+				if !strings.HasSuffix(l, "#R") {
+					if lockOf[a.Field] == nil {
+						lockOf[a.Field] = map[string]bool{}
+					}
+					lockOf[a.Field][l] = true
+					guarded[a.Field] = true
+				}
+			}
+		}
+	}
+	out := map[string]string{}
+	for fn, lock := range cfg.AtomicSteps {
+		n := nodes[fn]
+		if n == nil {
+			out[fn] = "function not found"
+			continue
+		}
+		cnt := 0
+		problem := ""
+		for _, l := range n.acquires {
+			if l == lock {
+				cnt++
+			}
+			if l == lock+"#R" {
+				problem = "takes the lock in shared mode"
+			}
+		}
+		if cnt != 1 && problem == "" {
+			problem = fmt.Sprintf("acquires %s %d times (one critical section expected)", lock, cnt)
+		}
+		has := func(ls []string) bool {
+			for _, l := range ls {
+				if l == lock {
+					return true
+				}
+			}
+			return false
+		}
+		for _, a := range n.accesses {
+			if problem == "" && lockOf[a.Field][lock] && !has(n.locksAt[a]) {
+				problem = fmt.Sprintf("accesses %s outside the critical section (line %d)", a.Field, a.Line)
+			}
+		}
+		for _, c := range n.calls {
+			if c.callee == nil || problem != "" {
+				continue
+			}
+			for _, l := range c.callee.acquires {
+				if strings.TrimSuffix(l, "#R") == lock {
+					problem = "calls " + c.callee.id + " which takes the same lock again (second critical section)"
+				}
+			}
+			if problem == "" && !has(c.locks) && c.callee.parent == nil {
+				for _, a := range c.callee.accesses {
+					if lockOf[a.Field][lock] {
+						problem = "calls " + c.callee.id + " (touching " + a.Field + ") outside the critical section"
+						break
+					}
+				}
+			}
+		}
+		out[fn] = problem
+	}
+	return out
 }
 
 // scanTxctxReaders lists every non-test source file of the engine module
@@ -505,6 +601,7 @@ func (w *walker) stmt(s ast.Stmt) {
 	case *ast.ReturnStmt:
 		for _, r := range x.Results {
 			w.expr(r)
+			w.escape(r)
 		}
 	case *ast.IfStmt:
 		w.stmt(x.Init)
@@ -560,6 +657,30 @@ func (w *walker) stmt(s ast.Stmt) {
 			}
 		}
 	}
+}
+
+// escape: `return x.f` of a map / slice typed field while a lock is held hands
+// the caller a reference it will use AFTER the critical section; recorded as an
+// additional read of the field with no lock held.
+func (w *walker) escape(e ast.Expr) {
+	sel, ok := e.(*ast.SelectorExpr)
+	if !ok || len(w.heldList()) == 0 {
+		return
+	}
+	id, v, ok := fieldID(w.info, sel)
+	if !ok {
+		return
+	}
+	switch v.Type().Underlying().(type) {
+	case *types.Map, *types.Slice:
+	default:
+		return
+	}
+	pos := fset.Position(sel.Sel.Pos())
+	a := &Access{Field: id, Write: false, Func: w.n.id + " (reference escapes the lock via return)", File: pos.Filename, Line: pos.Line}
+	w.n.accesses = append(w.n.accesses, a)
+	w.n.locksAt[a] = nil
+	w.n.escaped = append(w.n.escaped, a)
 }
 
 // ifTryLock recognises `if !m.TryLock() { ...; return }` (no else): after the
@@ -662,11 +783,13 @@ func (w *walker) call(c *ast.CallExpr, isDefer, isGo bool) {
 			case "Lock":
 				if !isDefer {
 					w.held[id]++
+					w.n.acquires = append(w.n.acquires, id)
 				}
 				return
 			case "RLock":
 				if !isDefer {
 					w.held[id+"#R"]++
+					w.n.acquires = append(w.n.acquires, id+"#R")
 				}
 				return
 			case "TryLock", "TryRLock":
@@ -911,7 +1034,7 @@ func writeOutputs(all []Access, outV, outJ, repo string) {
 		a := &all[i]
 		a.File = strings.TrimPrefix(a.File, strings.TrimSuffix(repo, "/")+"/")
 		tn := a.Field[:strings.LastIndex(a.Field, ".")]
-		if ignT[tn] || ignF[a.Field] {
+		if ignT[tn] || ignF[a.Field] || !primary[tn[:strings.LastIndex(tn, ".")]] {
 			continue
 		}
 		sites++
@@ -943,6 +1066,21 @@ func writeOutputs(all []Access, outV, outJ, repo string) {
 	sb.WriteString("(* GENERATED by /verif/lockset from the current /repo source on every check run. Do not edit. *)\n")
 	sb.WriteString("From Coq Require Import List String.\nFrom Verif Require Import C18.Lockset.\nImport ListNotations.\nOpen Scope string_scope.\n\n")
 	sb.WriteString("Definition multi_roles : list string := " + coqList(cfg.MultiRoles) + ".\n\n")
+	sb.WriteString("(* function bodies the C01/C02/C09/C12 models treat as one atomic step: \"\" = it is a single critical section *)\n")
+	sb.WriteString("Definition atomic_report : list (string * string) := [\n")
+	afn := make([]string, 0, len(atomicReport))
+	for k := range atomicReport {
+		afn = append(afn, k)
+	}
+	sort.Strings(afn)
+	for i, k := range afn {
+		sep := ";"
+		if i == len(afn)-1 {
+			sep = ""
+		}
+		fmt.Fprintf(&sb, "  (%s, %s)%s\n", coqStr(k), coqStr(atomicReport[k]), sep)
+	}
+	sb.WriteString("].\n\n")
 	sb.WriteString("(* production functions (analysed packages) that read the per-flow transactional context *)\n")
 	sb.WriteString("Definition txctx_readers : list string := " + coqList(keys(txctxReaders)) + ".\n\n")
 	sb.WriteString("Definition accesses : list fact := [\n")
@@ -979,7 +1117,7 @@ func writeOutputs(all []Access, outV, outJ, repo string) {
 	must(os.WriteFile(outV, []byte(sb.String()), 0o644))
 	must(os.MkdirAll(filepath.Dir(outJ), 0o755))
 	js, _ := json.MarshalIndent(map[string]any{"sites": all, "facts": len(order), "access_sites": sites,
-		"functions": len(nodes), "multi_roles": cfg.MultiRoles, "dropped_fields": ignF}, "", " ")
+		"functions": len(nodes), "multi_roles": cfg.MultiRoles, "dropped_fields": ignF, "atomic_report": atomicReport}, "", " ")
 	must(os.WriteFile(outJ, js, 0o644))
 	fmt.Printf("lockset: %d functions, %d access sites of shared fields, %d distinct facts\n", len(nodes), sites, len(order))
 }
